@@ -159,6 +159,35 @@ def rt_case(m, tag):
     return Case(line, out, sig, fail, {'op': 'rt', 'obj': line})
 
 
+def decode_twice_case(rng, m, tag):
+    """json_decode is a function of the text: the same text decoded again, after the first result was changed the way the
+    library changes messages (sequence number at send time, encoding switched by pdu(), tracking data), is the message that was
+    encoded - not the object handed out before (predicate only)"""
+    from aiosmpplib.jsonutils import json_encode, json_decode
+    fail = None
+    line = '# decode-twice ' + show_obj(m).encode('ascii', 'backslashreplace').decode('ascii')
+    try:
+        text = json_encode(m)
+        first = json_decode(text)
+        d = first.__dict__
+        if 'sequence_num' in d:
+            first.sequence_num = (first.sequence_num + 4242) % 0x7FFFFFFF
+        if 'log_id' in d:
+            first.log_id = 'changed'
+        if 'encoding' in d:
+            first.encoding = 'ucs2'
+        if isinstance(d.get('optional_params'), list):
+            first.optional_params.clear()
+        second = json_decode(text)
+        if second is first:
+            fail = 'json_decode returned the object it had returned for the same text before'
+        elif not (second == m):
+            fail = 'the same JSON text decoded a second time is not the message that was encoded'
+    except Exception as e:      # noqa
+        fail = 'encode / decode / decode raised %r' % (e,)
+    return Case(line, line, ('decode-twice', type(m).__name__), fail, {'op': 'decode-twice', 'obj': line})
+
+
 def rand_dt(rng):
     import calendar
     y = rng.choice((1, 999, 1969, 2000, 2024, 2099, 9999, rng.randrange(1, 10000)))
@@ -168,7 +197,12 @@ def rand_dt(rng):
     dt = datetime(y, mo, d, rng.randrange(24), rng.randrange(60), rng.randrange(60), us)
     off = rng.choice((None, None, 0, 900, -900, 3600, 19800, -34200, 86399, -86399, 59, -1, 3601, rng.randrange(-86399, 86400)))
     if off is not None:
-        dt = dt.replace(tzinfo=timezone(timedelta(seconds=off)))
+        if off % 60 == 0 and abs(off) < 86400 and rng.random() < 0.5:
+            # the library's own tzinfo class: what from_pdu attaches to every absolute SMPP time it reads
+            from aiosmpplib.utils import FixedOffset
+            dt = dt.replace(tzinfo=FixedOffset(timedelta(seconds=off), '%+03d:%02d' % (int(off / 3600), abs(off) % 3600 // 60)))
+        else:
+            dt = dt.replace(tzinfo=timezone(timedelta(seconds=off)))
     return dt
 
 
@@ -313,6 +347,8 @@ def generate(rng, tier):
             if isinstance(d.get('optional_params'), list) and rng.random() < 0.3:
                 m.optional_params.append(OptionalParam(0x0204, rng.randrange(65536)))
             yield rt_case(m, tag + '-again')
+        if i % 6 == 1:
+            yield decode_twice_case(rng, m, tag)
     for _ in range(2500 if thorough else 600):
         m, _t = rand_msg(rng)
         yield dec_case(rng, m)
